@@ -103,6 +103,31 @@ def one_node(ctx, f, g, cfg):
         if "INBOUND_NODE" in p or "INBOUND_NODE" in root:
             continue
         extra.append(p)
+    # ... and every node created for a resource ends up in the map: the constructor call sits in the closure given to
+    # or_insert_with, or its result is moved into an insert on the map (a node that is returned but not retained makes later
+    # entries of that resource account on different nodes)
+    for p in sorted(set(ctors)):
+        cb = f.bodies[p]
+        root = cb.root or p
+        if "INBOUND_NODE" in p or "INBOUND_NODE" in root:
+            continue
+        retained = False
+        if cb.kind == "Closure" and cb.root in f.bodies:
+            rb = f.bodies[cb.root]
+            for bb, t in rb.calls():
+                if callee_def(t).rsplit("::", 1)[-1] in ("or_insert_with", "or_insert_with_key") and any(p in d for d in t.get("arg_defs", [])):
+                    retained = True
+        else:
+            sl = Slicer(f, cb)
+            for bb, t in cb.calls():
+                if callee_def(t).rsplit("::", 1)[-1] in ("insert", "or_insert") and any_atom(sl.of_operand(t["args"][-1]), "call:ResourceNode::new"):
+                    w = None
+                    news = [x for x, tt in cb.calls() if callee_is(tt, "ResourceNode::new")]
+                    w = must_pass(cb, news, cb.return_blocks(), [bb])
+                    retained = w is None
+        ctx.instance("C14.one-node/retained", p, "created node is stored in the map on every path: %s" % retained, "true", retained, cfg)
+        if not retained:
+            ctx.violation("C14.one-node", "C14.one-node|not-retained|" + p.replace("core::", "", 1), "%s creates a ResourceNode that can be returned without being stored in RESOURCE_NODE_MAP: later entries of that resource get a different node" % p, cb.loc(), config=cfg)
     ctx.instance("C14.one-node/constructors", "ResourceNode::new callers", sorted(set(ctors)), "only the get-or-create function and the inbound-node static", not extra, cfg)
     for p in extra:
         ctx.violation("C14.one-node", "C14.one-node|constructor|" + p.replace("core::", "", 1), "%s constructs a ResourceNode outside the node map" % p, f.bodies[p].loc(), config=cfg)
